@@ -180,7 +180,9 @@ func PCWriteRTCP(pc *webrtc.PeerConnection, pkts []rtcp.Packet) error {
 		return io.ErrClosedPipe
 	}
 	if p.rtcp != nil {
+		t.noYield++
 		p.rtcp(pc, pkts)
+		t.noYield--
 	}
 	return nil
 }
@@ -189,6 +191,7 @@ func PCWriteRTCP(pc *webrtc.PeerConnection, pkts []rtcp.Packet) error {
 // RTPReceiver.ReadSimulcast and RTPSender.Read.
 type Feed struct {
 	r      *Run
+	mu     sync.Mutex // never held across a park; guards are evaluated lock-free at quiescence
 	queue  [][]byte
 	closed bool
 	Reads  int
@@ -210,20 +213,19 @@ func (r *Run) feed(key any, create bool) *Feed {
 func (r *Run) FeedFor(key any) *Feed { return r.feed(key, true) }
 
 func (f *Feed) Push(b []byte) {
-	f.r.mu.Lock()
+	f.mu.Lock()
 	f.queue = append(f.queue, append([]byte(nil), b...))
-	f.r.mu.Unlock()
+	f.mu.Unlock()
 }
 
 func (f *Feed) Close() {
-	f.r.mu.Lock()
+	f.mu.Lock()
 	f.closed = true
-	f.r.mu.Unlock()
+	f.mu.Unlock()
 }
 
+// Len may be called from scheduler guards (no kernel lock is taken).
 func (f *Feed) Len() int {
-	f.r.mu.Lock()
-	defer f.r.mu.Unlock()
 	return len(f.queue)
 }
 
@@ -233,22 +235,22 @@ func (f *Feed) read(b []byte, site string) (int, error) {
 	r.enter(t)
 	r.yield(t, ClassIO, site)
 	for {
-		r.mu.Lock()
+		f.mu.Lock()
 		if len(f.queue) > 0 {
 			p := f.queue[0]
 			f.queue = f.queue[1:]
 			f.Reads++
-			r.mu.Unlock()
+			f.mu.Unlock()
 			if len(p) > len(b) {
 				return 0, io.ErrShortBuffer
 			}
 			return copy(b, p), nil
 		}
 		if f.closed {
-			r.mu.Unlock()
+			f.mu.Unlock()
 			return 0, io.EOF
 		}
-		r.mu.Unlock()
+		f.mu.Unlock()
 		r.park(t, func() bool { return len(f.queue) > 0 || f.closed }, "feed", site)
 	}
 }
